@@ -367,7 +367,7 @@ func (e *c12Env) panicSig(stage string, pv interface{}, st string, tbl c12Table)
 
 type c12Walk struct {
 	nodes, slices, sliceBytes, indexValues, emptySlices int
-	problem                                              string // signature: detail
+	problem                                             string // signature: detail
 }
 
 // c12WalkTree visits everything reachable from the root with a visited set
@@ -775,8 +775,8 @@ func TestVerifC12(t *testing.T) {
 	}
 	draw := func(r *vlib.Rand, limit int) c12Part {
 		si := pickSource(r)
-		for sources[si].gen == nil { // multi-table sources only start a case
-			si = (si + 1) % len(sources)
+		for sources[si].gen == nil { // multi-table sources only start a case: draw again
+			si = pickSource(r)
 		}
 		pt := c12Part{source: sources[si].name}
 		pt.payload, pt.recipe, pt.kinds = sources[si].gen(r)
@@ -788,7 +788,7 @@ func TestVerifC12(t *testing.T) {
 	}
 	good := []c12Base{{name: "follow", payload: c12FollowProgram()}, {name: "hand:lib", payload: c12Lib()}, {name: "hand:uses-lib", payload: c12UsesLib()}, {name: "hand:uses-lib", payload: c12UsesLib()}, c12Bases[1], c12Bases[2]}
 
-	run.Cases(run.N(50000, 2500000), func(c *vlib.Case) {
+	run.Cases(run.N(40000, 1500000), func(c *vlib.Case) {
 		r := c.R
 		in := &c12Input{}
 		r1 := r.Fork(1)
